@@ -198,6 +198,41 @@ def agent_poll(src):
     return after_l, loop_l, inits
 
 
+MSG = "stun-types/src/message.rs"
+
+
+def iter_next(src):
+    """MessageAttributesIter::next: `loop { ... }` with `continue` and early returns -> a fuel-recursive function
+    (one unit of fuel per loop iteration; the proof shows data.len()+1 always suffices)"""
+    txt = src.get(MSG)
+    imp = impl_body(txt, r"impl\s*<'a>\s*Iterator\s+for\s+MessageAttributesIter<'a>\s*\{")
+    if imp is None:
+        raise XlateError("impl Iterator for MessageAttributesIter not found")
+    body = fn_body(imp, r"fn\s+next\s*\(\s*&mut\s+self\s*\)\s*->\s*Option<Self::Item>\s*\{")
+    if body is None:
+        raise XlateError("MessageAttributesIter::next not found")
+    # the initial state built by iter_attributes
+    it = fn_body(txt, r"pub\s+fn\s+iter_attributes\s*\(\s*&self\s*\)\s*->\s*impl\s+Iterator<Item\s*=\s*RawAttribute>\s*\{")
+    if it is None or re.sub(r"\s+", "", it) != "MessageAttributesIter{data:self.data,data_i:MessageHeader::LENGTH,seen_message_integrity:false,last_was_message_integrity:false,}":
+        raise XlateError("iter_attributes initial state shape")
+    stmts = [x for x in parse_body(body) if not (x[0] == "expr" and x[1][0] == "macro")]
+    if len(stmts) != 1 or stmts[0][0] != "loop":
+        raise XlateError("next: body is not a single loop")
+    em = Emitter(
+        exprs=[
+            ("self.data_i", "st.dataI"), ("self.data.len()", "data.length"),
+            ("self.seen_message_integrity", "st.seen"), ("self.last_was_message_integrity", "st.lastMI"),
+            ("RawAttribute::from_bytes(&self.data[self.data_i..])", "(rawFromBytes (data.drop st.dataI))"),
+            ("attr.padded_len()", "attr.paddedLen"), ("attr.get_type()", "attr.ty"),
+            ("MessageIntegrity::TYPE", "tyMI"), ("MessageIntegritySha256::TYPE", "tyMI256"), ("Fingerprint::TYPE", "tyFP"),
+        ],
+        pats=[("Ok($x)", "Except.ok $x")],
+        assigns=[("self.data_i", "dataI"), ("self.seen_message_integrity", "seen"), ("self.last_was_message_integrity", "lastMI")],
+        state="st", ret="({s}, {v})", locals_=[])
+    em.on_end = em.on_continue = "iterNext data __fuel st"
+    return "match __f with\n  | 0 => (st, none)\n  | __fuel + 1 => " + em.blk(list(stmts[0][1]))
+
+
 def req_mut(src, name):
     txt = src.get(AGENT)
     imp = impl_body(txt, r"impl\s*<'a>\s*StunRequestMut<'a>\s*\{")
@@ -298,6 +333,7 @@ def items(src):
     yield ("FnAgent", "agentPollAfter", sig_acc, ap_part("after"), None)
     yield ("FnAgent", "agentPollLoop", "(now : Time) (__ord : List Nat) (s : State) (lowest_wait : Option Time) (timeout cancelled : Option Nat) : State × Out", ap_part("loop"), None)
     yield ("FnAgent", "agentPoll", "(s : State) (now : Time) (ord : List Nat) : State × Out", ap_part("entry"), None)
+    yield ("FnMsg", "iterNext", "(data : Bytes) (__f : Nat) (st : IterSt) : IterSt × Option RawAttr", lambda: iter_next(src), None)
     yield ("FnTcp", "tcpTake", "(buf : Bytes) (offset : Nat) : Bytes × Bytes", lambda: tcp_fn(src, "take"), None)
     yield ("FnTcp", "tcpPull", "(buf : Bytes) : Option Bytes × Bytes", lambda: tcp_fn(src, "pull_data"), None)
     yield ("FnTcp", "tcpPush", "(buf data : Bytes) : Bytes", lambda: tcp_fn(src, "push_data"), None)
@@ -305,6 +341,7 @@ def items(src):
 
 HEADERS = {
     "FnAgent": ["import StunVerif.Agent.Agent", "namespace StunVerif.Gen", "open StunVerif StunVerif.Agent", ""],
+    "FnMsg": ["import StunVerif.Msg.IterState", "namespace StunVerif.Gen", "open StunVerif", ""],
     "FnTcp": ["import StunVerif.Bytes", "namespace StunVerif.Gen", "open StunVerif", ""],
 }
 FALLBACK_FILE = os.path.join(os.path.dirname(os.path.abspath(__file__)), "fn_fallback.json")
